@@ -129,6 +129,14 @@ Qed.
 
 Ltac inv_pair H := inversion H; subst; clear H.
 
+Lemma close_all_w l :
+  sumw wA (flat_map close_events l) = - nA l /\ sumw wP (flat_map close_events l) = - nP l /\
+  sumw wC (flat_map close_events l) = - nC l.
+Proof.
+  induction l as [|a l (I1 & I2 & I3)]; cbn [flat_map]; [cbn; lia|]. rewrite !sumw_app.
+  destruct (close_events_w a) as (W1 & W2 & W3). unfold nA, nP, nC in *. cbn [length fold_right]. lia.
+Qed.
+
 Theorem balance_step cfg s e s' acts : inv cfg s -> step cfg s e = (s', acts) ->
   nA (allocs s') = nA (allocs s) + sumw wA acts /\
   nP (allocs s') = nP (allocs s) + sumw wP acts /\
@@ -138,7 +146,7 @@ Proof.
   assert (Same : forall (st : state) (l : list action), st = s -> sumw wA l = 0 -> sumw wP l = 0 -> sumw wC l = 0 ->
             nA (allocs st) = nA (allocs s) + sumw wA l /\ nP (allocs st) = nP (allocs s) + sumw wP l /\
             nC (allocs st) = nC (allocs s) + sumw wC l) by (intros; subst; lia).
-  destruct e as [src tid c r unk|src p d|src n d|relay from d|dt|relay]; cbn [step] in H.
+  destruct e as [src tid c r unk|src p d|src n d|relay from d|dt|relay|csrc|]; cbn [step] in H.
   - destruct unk; [inv_pair H; apply Same; reflexivity|].
     destruct r as [tr lt fam df rp ep rt mt|lt fam|peers|n p|]; try (inv_pair H; apply Same; reflexivity);
       destruct (authenticate cfg s c) as [uid|code ch]; try (inv_pair H; apply Same; reflexivity).
@@ -193,6 +201,11 @@ Proof.
   - unfold h_relay_err in H. destruct (find_relay relay (allocs s)) as [a|] eqn:Hf; [|inv_pair H; apply Same; reflexivity].
     inv_pair H. cbn [allocs set_allocs]. apply find_relay_some in Hf as [Hin _].
     destruct (close_events_w a) as (W1 & W2 & W3). destruct (remove_counts a (allocs s) Hnd Hin) as (R1 & R2 & R3). lia.
+  - unfold h_ctl_close in H. destruct (find_alloc csrc (allocs s)) as [a|] eqn:Hf; [|inv_pair H; apply Same; reflexivity].
+    inv_pair H. cbn [allocs set_allocs]. apply find_alloc_some in Hf as [Hin _].
+    destruct (close_events_w a) as (W1 & W2 & W3). destruct (remove_counts a (allocs s) Hnd Hin) as (R1 & R2 & R3). lia.
+  - inv_pair H. cbn [allocs set_allocs]. destruct (close_all_w (allocs s)) as (W1 & W2 & W3).
+    unfold nA at 1, nP at 1, nC at 1. cbn [length fold_right]. lia.
 Qed.
 
 (* over whole histories: callbacks announced so far balance exactly against what exists now *)
